@@ -52,6 +52,13 @@ class Fee(object):
             return s["f"] + s["r"] * aq * abs(p)
         if k == "max":
             return max(s["f"], s["k"] * aq)
+        # charges that depend on the side of the trade (a levy on sales, a duty on purchases, different ticket charges)
+        if k == "sell_levy":
+            return s["r"] * aq * abs(p) if q < 0 else 0.0
+        if k == "buy_duty":
+            return s["r"] * aq * abs(p) if q > 0 else 0.0
+        if k == "side_fixed":
+            return float(s["fb"]) if q >= 0 else float(s["fs"])
         raise ValueError(k)
 
     def __call__(self, q, p):
@@ -326,6 +333,9 @@ def mk_node(bt, n, spec, frames):
             node = bt.core.FixedIncomeStrategy(n["name"], algos=algos, children=children)
         else:
             node = bt.core.Strategy(n["name"], algos=algos, children=children)
+    if n.get("own_fee") and frames.get("__fee__") is not None:
+        # a commission function installed on this strategy while it is still stand-alone (before it is composed into a parent)
+        node.set_commissions(frames["__fee__"])
     # sub-strategies attached after construction through the parent argument
     for c in n.get("late") or []:
         kids = [mk_node(bt, g, spec, frames) for g in c.get("children") or []] or None
